@@ -1684,12 +1684,67 @@ fn sabotage_level() -> u32 {
     std::env::var("C12_SABOTAGE").ok().and_then(|s| s.parse().ok()).unwrap_or(0)
 }
 
+/// `Context::lit` of an ARRAY value builds a store chain: the same array value (same default, same entries),
+/// whatever the order in which it was filled and whichever instance holds it, is "the same literal value" and
+/// must give the same reference - also a second time.
+fn array_lit_probe(rep: &Report) {
+    use baa::{ArrayMutOps, ArrayValue};
+    let mut n = 0u64;
+    for (iw, dw) in [(2u32, 2u32), (3, 1), (8, 8), (70, 3)] {
+        for k in 1..=5usize {
+            if iw < 20 && k > (1usize << iw) {
+                continue;
+            }
+            // pairwise different indices (a repeated index would make the two fill orders two different values)
+            let idx: Vec<Bv> = (0..k).map(|i| Bv::from_u64(iw, if iw >= 8 { i as u64 * 37 + 1 } else { i as u64 })).collect();
+            let dat: Vec<Bv> = (0..k).map(|i| Bv::from_u64(dw, ((i as u64 + 1) % ((1u64 << dw) - 1)) + 1)).collect();
+            let build = |order: &[usize]| -> ArrayValue {
+                let mut a = ArrayValue::new_sparse(iw, &pvcore::evalref::bv_to_baa(&Bv::zero(dw)));
+                for i in order {
+                    a.store(&pvcore::evalref::bv_to_baa(&idx[*i]), &pvcore::evalref::bv_to_baa(&dat[*i]));
+                }
+                a
+            };
+            let fwd: Vec<usize> = (0..k).collect();
+            let rev: Vec<usize> = (0..k).rev().collect();
+            let r = catch(|| {
+                let mut ctx = Context::default();
+                let r1 = ctx.lit(baa::Value::Array(build(&fwd)));
+                let mut all = vec![r1];
+                for _ in 0..6 {
+                    all.push(ctx.lit(baa::Value::Array(build(&fwd))));
+                    all.push(ctx.lit(baa::Value::Array(build(&rev))));
+                }
+                all
+            });
+            n += 1;
+            rep.add("array_literal_probes", 1);
+            match r {
+                Ok(all) => {
+                    if all.iter().any(|r| *r != all[0]) {
+                        let distinct: std::collections::BTreeSet<usize> = all.iter().map(|r| usize::from(*r)).collect();
+                        rep.violation(Violation {
+                            sig: format!("C12|dup|lit:ArrayValue|entries{}|", if k == 1 { "1" } else { "2+" }),
+                            what: format!("Context::lit of one and the same array value ({iw}->{dw}, {k} non-default entries), built 13 times (entries stored in forward and in reverse order), returned {} different references: the store chain follows the iteration order of a hash map", distinct.len()),
+                            case: json!({"history": [], "array_literal": {"iw": iw, "dw": dw, "entries": k}}),
+                            order: (1u64 << 61) + n,
+                        });
+                    }
+                }
+                Err(p) if p.file().contains("baa-") => rep.add("array_literal_probe_baa_panics", 1),
+                Err(p) => rep.violation(Violation { sig: format!("C12|panic|lit:ArrayValue|{}|", p.file()), what: format!("Context::lit of an array value panics: {} ({})", p.msg, p.short_loc()), case: json!({"history": [], "array_literal": {"iw": iw, "dw": dw, "entries": k}}), order: (1u64 << 61) + n }),
+            }
+        }
+    }
+}
+
 pub fn run(opts: &Opts, rep: &Report) {
     let tier = match opts.mode {
         Mode::Run(t) => t,
         _ => unreachable!(),
     };
     let budget = Budget::new(opts.budget_s);
+    array_lit_probe(rep);
     let mut bases = Bases { b: vec![] };
     for level in FILLS {
         match Base::build(level) {
